@@ -1,3 +1,4 @@
+pub mod c02;
 pub mod c03;
 pub mod c07;
 pub mod c09;
@@ -12,6 +13,7 @@ use crate::simkit::Property;
 
 pub fn by_id(id: &str) -> Option<Box<dyn Property>> {
     match id {
+        "C02" => Some(Box::new(c02::C02)),
         "C03" => Some(Box::new(c03::C03)),
         "C07" => Some(Box::new(c07::C07)),
         "C09" => Some(Box::new(c09::C09)),
@@ -24,4 +26,4 @@ pub fn by_id(id: &str) -> Option<Box<dyn Property>> {
         _ => None,
     }
 }
-pub const ALL: &[&str] = &["C03", "C07", "C09", "C10", "C11", "C12", "C13", "C18", "C19"];
+pub const ALL: &[&str] = &["C02", "C03", "C07", "C09", "C10", "C11", "C12", "C13", "C18", "C19"];
